@@ -8,7 +8,7 @@
  *   wsclose <c|s> <stream-hex> <cut>                  stream[0..cut) is received in one chunk; then, with stream[cut..)
  *                                                     available on the socket, the application closes the session:
  *                                                     coap_ws_close() sends its Close frame and drains the socket for the
- *                                                     peer's.  Output: n=.. drain rc=<recv_close> left=<bytes not read>
+ *                                                     peer's.  Output: n=.. drain rc=<recv_close> left=<bytes not read> rounds=<select() calls> calls=<coap_ws_read calls>
  *   wsself <c|s> <stream-hex>                         the stream is received in one chunk; if the reader closes the session by
  *                                                     itself (refusal 1002/1003/1009, Close frame) with the handshake done:
  *                                                     n=.. self rc=<recv_close> left=<bytes of the chunk never read>, else noself
@@ -23,6 +23,7 @@
 #include "coap3/coap_libcoap_build.h"
 #include "hcommon.h"
 #include <sys/socket.h>
+#include <sys/select.h>
 #include <netinet/in.h>
 #include <arpa/inet.h>
 #include <fcntl.h>
@@ -101,6 +102,17 @@ static int event_handler(coap_session_t *session, const coap_event_t event) {
 static void nack_handler(coap_session_t *session, const coap_pdu_t *sent, const coap_nack_reason_t reason, const coap_mid_t mid) {
   (void)session; (void)sent; (void)mid;
   g_nack = (int)reason;
+}
+
+/* ---- coap_ws_close()'s drain loop: select() is wrapped (-Wl,--wrap=select) to count its rounds and how many of
+ * them found the socket readable (= the coap_ws_read() calls of the drain; nothing else in a run calls select()) ---- */
+static int g_sel_rounds, g_sel_ready;
+int __real_select(int n, fd_set *r, fd_set *w, fd_set *e, struct timeval *tv);
+int __wrap_select(int n, fd_set *r, fd_set *w, fd_set *e, struct timeval *tv) {
+  int res = __real_select(n, r, w, e, tv);
+  g_sel_rounds++;
+  if (res > 0) g_sel_ready++;
+  return res;
 }
 
 /* ---- chunk feeder / write recorder ---- */
@@ -220,6 +232,7 @@ static void run_stream(coap_proto_t proto, int server_side, unsigned long csm_ma
   g_out_len = 0; out_reserve(64); g_out[0] = 0;
   g_npdu = 0; g_nack = -1; g_nev = 0; g_closed = 0; g_reads = 0; g_written = 0;
   g_chunk = NULL; g_chunk_left = 0;
+  g_sel_rounds = 0; g_sel_ready = 0;
 
   coap_context_set_csm_max_message_size(g_ctx, csm_max ? (uint32_t)csm_max : (uint32_t)COAP_DEFAULT_MAX_PDU_RX_SIZE);
   s = coap_new_client_session(g_ctx, NULL, &g_dst, proto);
@@ -276,7 +289,8 @@ static void run_stream(coap_proto_t proto, int server_side, unsigned long csm_ma
       coap_ws_close(s);
       coap_lock_unlock(g_ctx);
       scribble_stack();
-      printf("n=%d%s drain rc=%d left=%lu", g_npdu, g_out, s->ws ? (int)s->ws->recv_close : -1, (unsigned long)g_chunk_left);
+      printf("n=%d%s drain rc=%d left=%lu rounds=%d calls=%d", g_npdu, g_out, s->ws ? (int)s->ws->recv_close : -1,
+             (unsigned long)g_chunk_left, g_sel_rounds, g_sel_ready);
     }
     coap_session_release(s);
     drain_accept();
@@ -286,7 +300,8 @@ static void run_stream(coap_proto_t proto, int server_side, unsigned long csm_ma
   if (g_self_close) {
     /* closed by the reader itself with the handshake done: coap_ws_close() ran inside coap_ws_read() */
     if (g_closed && !stuck && s->ws && s->ws->up)
-      printf("n=%d%s self rc=%d left=%lu", g_npdu, g_out, (int)s->ws->recv_close, (unsigned long)g_chunk_left);
+      printf("n=%d%s self rc=%d left=%lu rounds=%d calls=%d", g_npdu, g_out, (int)s->ws->recv_close, (unsigned long)g_chunk_left,
+             g_sel_rounds, g_sel_ready);
     else
       printf("n=%d%s noself", g_npdu, g_out);
     coap_session_release(s);
